@@ -135,3 +135,42 @@ def multichar_stack_symbols(rng, RP):
     gm = dict(zip(RP[2], syms))
     g = lambda x: None if x is None else gm[x]
     return pd.make(RP[0], RP[1], [gm[x] for x in RP[2]], [(p, a, g(u), q, g(v)) for (p, a, u, q, v) in RP[3]], RP[4], RP[5])
+
+
+def empty_stack_acceptor(rng):
+    """PDA over one stack symbol per 'bracket' whose accepting states can only be entered with an empty stack by construction
+    of the moves: the control states form a cycle q0 -> q1 -> ... -> q0 in which pushes and pops of the same symbol are
+    nested, and q0 (entered with empty stack only when the brackets are closed) is the accepting state; sometimes the initial state is
+    the only accepting one, sometimes a second accepting state is reached by a non-stack move from q0"""
+    k = rng.randint(1, 3)
+    Q = ['q%d' % i for i in range(k + 1)] if rng.random() < 0.8 else ['s', 't', 'u', 'v'][:k + 1]
+    syms = 'ab'[:rng.randint(1, 2)]
+    G = ['X', 'Y'][:rng.randint(1, 2)]
+    T = []
+    q0 = Q[0]
+    shape = rng.randrange(3)
+    if shape == 0:
+        # (a^n b^n)* style: q0 -a,push-> q1 ; q1 -a,push-> q1 ; q1 -b,pop-> q0|q1
+        X = G[0]
+        a, b = syms[0], syms[-1]
+        q1 = Q[1]
+        T += [(q0, a, None, q1, X), (q1, b, X, q0, None)]
+        if rng.random() < 0.5:
+            T += [(q1, a, None, q1, X), (q1, b, X, q1, None)]
+        F = [q0]
+    elif shape == 1:
+        # Dyck-like single state loop with marker-free counting: accept in q0; pops lead back to q0
+        X = G[0]
+        T += [(q0, syms[0], None, q0, X), (q0, syms[-1], X, q0, None)]
+        if len(Q) > 1:
+            T += [(q0, None, None, Q[1], None)]
+        F = [q0]
+    else:
+        # push in q0, cross to q1 on epsilon or a symbol, pop everything, epsilon back to q0 only with a pop of the last symbol
+        X = G[0]
+        q1 = Q[1]
+        T += [(q0, syms[0], None, q1, X), (q1, syms[0], None, q1, X), (q1, syms[-1], X, Q[-1], None), (Q[-1], syms[-1], X, Q[-1], None)]
+        F = [q0]
+    if rng.random() < 0.3:
+        T.append((q0, rng.choice(syms), None, q0, None))
+    return pd.make(Q, syms, G, T, q0, F)
